@@ -33,6 +33,7 @@ pub const C05_RULES: &[&str] = &[
     "final_index_unreadable",
     "commit_identity_differs",
 ];
+pub const C02_ONLY_RULES: &[&str] = &["commit_not_a_sequential_order_of_concurrent_calls"];
 pub const C04_RULES: &[&str] = &["content_differs_after_merge", "index_unreadable_after_merge", "final_content_differs", "final_index_unreadable", "reload_moved_back", "commit_identity_differs"];
 /// reported for both: the harness cannot tell whose they are
 pub const SHARED_RULES: &[&str] = &["call_fails", "writer_action_panics", "scenario_panics"];
@@ -43,12 +44,14 @@ pub fn belongs(prop: &str, rule: &str) -> bool {
         "C04" | "C02" | "C11" => C04_RULES,
         _ => C05_RULES,
     };
-    own.contains(&rule) || SHARED_RULES.contains(&rule)
+    own.contains(&rule) || SHARED_RULES.contains(&rule) || (prop == "C02" && C02_ONLY_RULES.contains(&rule))
 }
 
 fn relevant(prop: &str, k: &Kind) -> bool {
     match (prop, k) {
         ("C04" | "C02", Kind::MergeVsOps { .. } | Kind::MergeVsRestart { .. } | Kind::OverlappingMerges { .. } | Kind::CommitVsMergeEnd) => true,
+        ("C02", Kind::Producers { .. }) => true,
+        (_, Kind::Producers { .. }) => false,
         ("C11" | "C04", Kind::MergeVsOpsFault { .. }) => true,
         (_, Kind::MergeVsOpsFault { .. }) => false,
         ("C11", _) => false,
